@@ -677,6 +677,18 @@ fn strict_uint(w: &str) -> Option<usize> {
 }
 
 pub fn ref_parse_iccma(bytes: &[u8]) -> RefParse {
+    if std::str::from_utf8(bytes).is_err() {
+        // undecodable bytes cannot be part of a well-formed file.  Decoded lossily they become
+        // garbage characters: if they sit in a header or attack line that line is ill-formed in a
+        // listed way (bad header / not an index) and the file must be rejected; if they only sit
+        // in comments the status of the file is left open.
+        let lossy = String::from_utf8_lossy(bytes).to_string();
+        return match ref_parse_iccma(lossy.as_bytes()) {
+            RefParse::Listed(c) => RefParse::Listed(c),
+            RefParse::TooBig => RefParse::TooBig,
+            _ => RefParse::Unlisted("not-utf8"),
+        };
+    }
     let lines = match lines_of(bytes) {
         Some(l) => l,
         None => return RefParse::Unlisted("not-utf8"),
@@ -777,6 +789,13 @@ fn is_ident(s: &str) -> bool {
 }
 
 pub fn ref_parse_apx(bytes: &[u8]) -> RefParse {
+    if std::str::from_utf8(bytes).is_err() {
+        let lossy = String::from_utf8_lossy(bytes).to_string();
+        return match ref_parse_apx(lossy.as_bytes()) {
+            RefParse::Listed(c) => RefParse::Listed(c),
+            _ => RefParse::Unlisted("not-utf8"),
+        };
+    }
     let lines = match lines_of(bytes) {
         Some(l) => l,
         None => return RefParse::Unlisted("not-utf8"),
@@ -978,8 +997,21 @@ pub fn gen_listed_illformed(rng: &mut Rng, iccma: bool) -> (Vec<u8>, &'static st
                     (format!("p af {}\n{}{} {} {}\n", n, ok, a, b, a), "arity-3")
                 }
             }
-            _ => (format!("p af {}\n{}\n{}", n, ok, ok), "content-after-blank-line"),
+            _ => {
+                if rng.pct(50) {
+                    (format!("p af {}\n{}\n{}", n, ok, ok), "content-after-blank-line")
+                } else {
+                    (format!("\np af {}\n", n), "header-after-blank-line")
+                }
+            }
         };
+        if rng.pct(8) {
+            // an undecodable byte inside an attack line after a valid prefix
+            let mut b = format!("p af {}\n{}{} ", n, ok, a).into_bytes();
+            b.push(0xff);
+            b.extend_from_slice(format!("{}\n{}", b'0' as char, ok).as_bytes());
+            return (b, "undecodable-byte-in-attack-line");
+        }
         let s = if cat == "index-zero" && rng.pct(30) {
             s.replace("0 ", "-1 ")
         } else {
@@ -1342,6 +1374,13 @@ pub fn run_c13(ctx: &mut Ctx) {
             ctx.case_begin(&json!({"i": i}));
         }
         let mut rng = Rng::from_path(&[ctx.seed, 13, i]);
+        crate::report::guarded(ctx, |ctx| c13_one(ctx, &mut rng, i, cli_every));
+    }
+}
+
+fn c13_one(ctx: &mut Ctx, rng: &mut Rng, i: u64, cli_every: u64) {
+    {
+        let mut rng = rng.clone();
         let iccma = rng.pct(50);
         let base: Vec<u8> = if iccma { gen_iccma_text(&mut rng).0 } else { gen_apx_text(&mut rng).0 };
         // class (i)
